@@ -186,7 +186,7 @@ func checkC14(c *Ctx) {
 
 	checkDiffsTo(c, r)
 
-	checkSideMixing(c, r)
+	checkSideMixing(c, "C14.R0.side-mixing", r)
 	checkSections(c, "C14.R4.report-sections", pk)
 
 	c.Rule("C14.R1.orientation", "directed code ⇒ directed trigger of matching orientation; no opposite-orientation trigger; direction-less code ⇒ no one-sided selection", 55)
@@ -503,15 +503,16 @@ func checkDiffsTo(c *Ctx, r *goan.Rel) {
 
 // checkSideMixing: a helper that every other call site feeds from a single spec must not be
 // fed values of both specs at one call site (deviance rule, exact under the side model).
-func checkSideMixing(c *Ctx, r *goan.Rel) {
-	rule := "C14.R0.side-mixing"
-	c.Rule(rule, "a same-package helper whose other call sites pass values of one spec only is not called with values of both specs", 8)
+func checkSideMixing(c *Ctx, rule string, r *goan.Rel) {
+	c.Rule(rule, "a same-package helper whose other call sites pass values of one spec only is not called with values of both specs; a $ref resolver is only ever applied together with values of its own spec", 8)
 	pk := r.Pkg
 	info := pk.TypesInfo
 	type callInfo struct {
-		fn    string
-		call  *ast.CallExpr
-		sides map[goan.Side]bool
+		fn       string
+		call     *ast.CallExpr
+		sides    map[goan.Side]bool
+		resolver map[goan.Side]bool // sides of the $ref-resolver arguments
+		nRes     int
 	}
 	byCallee := map[*types.Func][]callInfo{}
 	for _, fd := range load.AllFuncs(pk) {
@@ -525,8 +526,14 @@ func checkSideMixing(c *Ctx, r *goan.Rel) {
 			if fn == nil || fn.Pkg() != pk.Types {
 				return true
 			}
-			ci := callInfo{name, call, map[goan.Side]bool{}}
+			ci := callInfo{name, call, map[goan.Side]bool{}, map[goan.Side]bool{}, 0}
 			for _, a := range call.Args {
+				if t := info.TypeOf(a); t != nil && goan.NamedName(t) == "SchemaFromRefFn" {
+					ci.nRes++
+					if s := r.SideOf(a); s == goan.S1 || s == goan.S2 {
+						ci.resolver[s] = true
+					}
+				}
 				// names and keys (basic-typed values) are shared between the two specs once a
 				// lookup succeeded; only structured values identify a spec
 				if t := info.TypeOf(a); t != nil {
@@ -557,6 +564,15 @@ func checkSideMixing(c *Ctx, r *goan.Rel) {
 			case 2:
 				mixed++
 			}
+		}
+		// a call handing over exactly one resolver is one-sided by construction: the resolver only
+		// knows the definitions of its own spec
+		for _, ci := range cis {
+			if ci.nRes != 1 || len(ci.resolver) != 1 {
+				continue
+			}
+			c.Check(len(ci.sides) == 1, rule, fmt.Sprintf("diff.%s › resolver call %s(%s)", ci.fn, fn.Name(), argStr(ci.call)), c.posOf(pk, ci.call.Pos()),
+				"resolver and values come from one spec", fmt.Sprintf("%s receives the $ref resolver of one spec together with values of the other: references are looked up in the wrong document (unresolved → nil schema, or the other spec's definition)", fn.Name()))
 		}
 		if pure < 2 || mixed > 1 {
 			continue // decided only for helpers fed one-sidedly at ≥ 2 call sites with at most one deviating site
